@@ -290,31 +290,84 @@ theorem C07_stops_waiting_for_map_slot (p : Pool) (m : Nat) (r : Req) (h : p.req
   obtain ⟨r0, h0, _⟩ := q0.reqs m r h
   exact finishMeta_done _ m .ok r0 h0
 
-/-- `Task.cancel()` on a live spawner makes its cancellation pending, in every placement: the future it waits on
-is cancelled if there is a pending one, otherwise (not started, running, slot already granted) `must_cancel` is set -/
-theorem C07_metaCancel_pending (p : Pool) (m : Nat) (r : Req) (h : p.reqs[m]? = some r) (ho : r.outcome = none) :
-    ∃ r', (p.metaCancel m).reqs[m]? = some r' ∧
-      (r'.mustCancel = true ∨
-       (r.frame = .waitRoom ∧ hasPendingWaiter m p.sem.waiters = true ∧
-          (p.metaCancel m).sem.waiters = cancelWaiterL m p.sem.waiters) ∨
-       (r.frame = .waitMapSem ∧ hasPendingWaiter m r.mapSem.waiters = true ∧
-          r'.mapSem.waiters = cancelWaiterL m r.mapSem.waiters)) := by
+theorem snapReq_sets (y : Req) (h1 : y.frame ≠ .running) (h2 : y.frame ≠ .done) :
+    (snapReq y).cancelSnap.isSome = true ∧ (y.cancelSnap = none → (snapReq y).cancelSnap = some (y.created, y.pulled)) := by
+  unfold snapReq
+  have a : (y.frame != MFrame.running) = true := by simpa using h1
+  have b : (y.frame != MFrame.done) = true := by simpa using h2
+  cases hs : y.cancelSnap with
+  | none => simp [a, b, hs]
+  | some s => simp [hs]
+
+/-- **the cancellation of a spawner is recorded.** `Task.cancel()` on a live spawner that is not inside its own handle
+(it has not begun, or is suspended waiting for pool room or for its own concurrency slot — with the slot possibly
+already handed to it) records the ghost snapshot `(created, pulled)` of that moment, unless one was recorded earlier -/
+theorem C07_metaCancel_snapshot (p : Pool) (m : Nat) (r : Req) (h : p.reqs[m]? = some r) (ho : r.outcome = none)
+    (hnr : r.frame ≠ .running) (hnd : r.frame ≠ .done) :
+    ∃ r', (p.metaCancel m).reqs[m]? = some r' ∧ r'.cancelSnap.isSome = true ∧
+      (r.cancelSnap = none → r'.cancelSnap = some (r.created, r.pulled)) := by
   unfold metaCancel
   simp only [h, ho, Option.isSome_none, Bool.false_eq_true, if_false]
   split
-  · rename_i hc
-    simp only [Bool.and_eq_true, beq_iff_eq] at hc
-    refine ⟨{ r with sched := true }, ?_, Or.inr (Or.inl ⟨hc.1, hc.2, rfl⟩)⟩
+  · obtain ⟨a, b⟩ := snapReq_sets r hnr hnd
+    refine ⟨{ snapReq r with sched := true }, ?_, a, b⟩
     simp only [schedMeta, emitRef, modReq]
-    rw [getElem?_modify_eq _ _ _ _ h]
+    rw [getElem?_modify_eq _ _ _ _ (getElem?_modify_eq _ _ _ _ h)]
   · split
-    · rename_i hc
-      simp only [Bool.and_eq_true, beq_iff_eq] at hc
-      refine ⟨{ r with mapSem := { r.mapSem with waiters := cancelWaiterL m r.mapSem.waiters }, sched := true }, ?_,
-        Or.inr (Or.inr ⟨hc.1, hc.2, rfl⟩)⟩
+    · obtain ⟨a, b⟩ := snapReq_sets { r with mapSem := { r.mapSem with waiters := cancelWaiterL m r.mapSem.waiters } } hnr hnd
+      refine ⟨{ snapReq { r with mapSem := { r.mapSem with waiters := cancelWaiterL m r.mapSem.waiters } } with sched := true }, ?_, a, b⟩
       simp only [schedMeta, emitRef, modReq]
       rw [getElem?_modify_eq _ _ _ _ (getElem?_modify_eq _ _ _ _ h)]
-    · exact ⟨{ r with mustCancel := true }, by simp only [modReq]; rw [getElem?_modify_eq _ _ _ _ h], Or.inl rfl⟩
+    · obtain ⟨a, b⟩ := snapReq_sets { r with mustCancel := true } hnr hnd
+      exact ⟨snapReq { r with mustCancel := true }, by simp only [modReq]; rw [getElem?_modify_eq _ _ _ _ h], a, b⟩
+
+/-- **a cancelled spawner stays stopped — for every history.** In every pool of every reachable world (any sizes,
+resizes, cancellations from the caller, from other tasks or from workers and callbacks of the group itself, failures,
+flushes, sibling groups): a spawner whose cancellation was recorded has, ever since, **created no task and pulled no
+element** (its counters still equal the snapshot), and it is over or its cancellation is still pending in a form its
+next step cannot miss: `must_cancel` is set, or the future it is suspended on (its entry in the pool semaphore's, resp.
+its own semaphore's, waiter queue) is cancelled — in which case `C07_stops_before_start`,
+`C07_stops_waiting_for_room`, `C07_stops_waiting_for_map_slot` say that this very step ends it without creating or
+pulling anything -/
+theorem C07_cancelled_stays_stopped (base : Nat) (h : History) (i : Nat) (c : Cfg) (p : Pool)
+    (hc : ((World.init base).run h).cfgs[i]? = some c) (hp : ((World.init base).run h).pools[i]? = some p)
+    (m : Nat) (r : Req) (hr : p.reqs[m]? = some r) (cr pu : Nat) (hs : r.cancelSnap = some (cr, pu)) :
+    r.created = cr ∧ r.pulled = pu ∧ (r.frame = .done ∨ DoomedAt p m r) := by
+  obtain ⟨a, b, d⟩ := cancAll base h i c p hc hp m r cr pu hr hs
+  exact ⟨a, b, d.elim False.elim id⟩
+
+/-- **… and its next step ends it.** A doomed spawner that is due to run (not started, or suspended in either of the two
+waits) finishes at that step: the step creates no task and changes no request's progress counters -/
+theorem C07_doomed_next_step (p : Pool) (m : Nat) (r : Req) (h : p.reqs[m]? = some r) (hs : r.sched = true)
+    (hd : DoomedAt p m r) (hf : r.frame = .notStarted ∨ r.frame = .waitRoom ∨ r.frame = .waitMapSem) :
+    (p.stepMeta m).tasks = p.tasks ∧
+    ∃ r', (p.stepMeta m).reqs[m]? = some r' ∧ r'.outcome.isSome = true ∧ r'.created = r.created ∧ r'.pulled = r.pulled := by
+  have fromQuiet : (Quiet p (p.stepMeta m) ∧ ∃ r', (p.stepMeta m).reqs[m]? = some r' ∧ r'.outcome.isSome = true) →
+      (p.stepMeta m).tasks = p.tasks ∧
+      ∃ r', (p.stepMeta m).reqs[m]? = some r' ∧ r'.outcome.isSome = true ∧ r'.created = r.created ∧ r'.pulled = r.pulled := by
+    intro ⟨q, r', a, b⟩
+    obtain ⟨r2, a2, e⟩ := q.reqs m r h
+    rw [a] at a2; cases a2
+    simp only [Req.ctr, Prod.mk.injEq] at e
+    exact ⟨q.tasks, r', a, b, e.2.1, e.1⟩
+  rcases hf with hf | hf | hf
+  · have hm : r.mustCancel = true := by
+      rcases hd with d | ⟨d, _⟩ | ⟨d, _⟩
+      · exact d
+      · rw [hf] at d; cases d
+      · rw [hf] at d; cases d
+    obtain ⟨a, r', b, c, d, e, _⟩ := C07_stops_before_start p m r h hs hf hm
+    exact ⟨a, r', b, c, e, d⟩
+  · refine fromQuiet (C07_stops_waiting_for_room p m r h hs hf ?_)
+    rcases hd with d | ⟨_, d⟩ | ⟨d, _⟩
+    · exact Or.inl d
+    · exact Or.inr d
+    · rw [hf] at d; cases d
+  · refine fromQuiet (C07_stops_waiting_for_map_slot p m r h hs hf ?_)
+    rcases hd with d | ⟨d, _⟩ | ⟨_, d⟩
+    · exact Or.inl d
+    · rw [hf] at d; cases d
+    · exact Or.inr d
 
 /-- `cancel_all()` forgets every group -/
 theorem C07_cancel_all_forgets (p : Pool) (h : p.doCancelAll.2 = .none) : p.doCancelAll.1.groups = [] := by
